@@ -430,8 +430,8 @@ class Gen:
         rng = self.rng
         name = wchoice(rng, self.cfg['probes'])
         ev = {'k': 'probe', 'name': name, 'slot': self._slot(w),
-              'salt': rng.randrange(10 ** 6), 'a': rng.randrange(64),
-              'b': rng.randrange(64), 'c': rng.randrange(64),
+              'salt': rng.randrange(10 ** 6), 'a': rng.randrange(4096),
+              'b': rng.randrange(4096), 'c': rng.randrange(4096),
               'dst': rng.randrange(8)}
         return ev
 
